@@ -12,6 +12,7 @@ CONSTANTS
   Variant = "shipped"
   NConn = 2
   MaxSteps = 4
+  Routes = {"typed"}
   Mech = "shipped"
 INIT SInit
 NEXT SNext
